@@ -569,8 +569,8 @@ theorem mkdirFrom_safe (env : Env) (perm : Nat) (handle : Fd) (remaining : Optio
     (hh : 0 ≤ handle) (hp : 0 ≤ env.proc.fd) :
     Safe (Disc true) (Root.mkdirFrom env perm handle remaining) FdOk := by
   unfold Root.mkdirFrom
-  have hcleanup : Safe (Disc true) (Prog.bind (Sys.freeze Sys.diagFuel handle) fun _ => Sys.close handle)
-      (fun _ => True) := Safe.bind (freeze_safe _ _) (fun _ _ => close_safe _)
+  have hcleanup : Safe (Disc true) (Prog.bind (Sys.freeze handle) fun _ => Sys.close handle)
+      (fun _ => True) := Safe.bind (freeze_safe _) (fun _ _ => close_safe _)
   apply Safe.mbind (Q' := FdOk) (onErr_fd (reopen_safe env handle O_DIRECTORY hh hp) hcleanup)
   · intro cur hcur
     dsimp only
